@@ -758,6 +758,7 @@ Proof.
     + intros f I.
       destruct (I a) as [J | [(J1 & _) | (x' & k' & _ & _ & J & _)]]; [rewrite J; eauto | congruence | eauto].
     + intros f r f' [c' Hc']. eapply gen_parent_file_blocks; eauto.
+  - (* InvalidRegexWritten *) congruence.
 Qed.
 
 (* ---------- C10 ---------- *)
